@@ -13,10 +13,10 @@ from .obligations import OBLIGATIONS, TRUSTED_BASE
 
 SIZES = {
     # property: (directed quick, general quick, directed thorough, general thorough)
-    "default": (500, 150, 20000, 6000),
-    "C01": (600, 250, 30000, 10000),
-    "C10": (80, 60, 2500, 1000),
-    "C11": (40, 60, 1200, 600),
+    "default": (1000, 300, 20000, 6000),
+    "C01": (1200, 400, 30000, 10000),
+    "C10": (160, 100, 2500, 1000),
+    "C11": (60, 80, 1200, 600),
 }
 
 
